@@ -5,6 +5,7 @@ import (
 	"verifharness/sim"
 
 	_ "verifharness/sims/calls"
+	_ "verifharness/sims/config"
 	_ "verifharness/sims/term"
 	_ "verifharness/sims/wasifs"
 )
